@@ -278,3 +278,20 @@ Definition pow_template_ok (dialect : str) : bool :=
       end
   | None => false
   end.
+
+(* ---- the text layer: which (prefix-minus construct, child) pairs put two `-` next to each other ---- *)
+Definition is_minus_prefix (c : construct) : bool :=
+  match c_top c, c_sk c with O, DUn SNeg O (DAtom (AHole _ _ _ _)) => true | _, _ => false end.
+Definition starts_with_minus (c : construct) : bool :=
+  match c_top c, c_sk c with O, DUn SNeg _ _ => true | _, _ => false end.
+Definition adjacency_bad (dialect : str) : list (str * str) :=
+  let cs := constructs dialect in
+  flat_map (fun p =>
+    if is_minus_prefix (snd p) then
+      flat_map (fun ch =>
+        match sites (c_sk (snd p)) with
+        | s :: _ => if negb (needs_parens (c_declared (snd ch)) (s_req s) (s_left s) (s_assoc s)) && starts_with_minus (snd ch)
+                    then [(fst p, fst ch)] else []
+        | [] => []
+        end) cs
+    else []) cs.
